@@ -39,6 +39,30 @@ P = {
  "C16": (True, "model_checking", "symbolic exponent algebra (KeyAlgebra.tla) and point-encoding case table (PointEncoding.tla) model-checked by TLC; TLC-generated operation stores / table rows replayed with real keys and seeded random scripts and strings trace-validated (equality relation among concrete values = relation among symbolic values)",
          "TLC checks the commuting laws (derive/synthetic/add vs public key), path helpers, serialisation identity and the flag-bit x coordinate-class acceptance table on the model; every TLC store is executed with real keys under two seed sets and every encoding class is realised on real strings; TLC trace validation compares the concrete equality relation, scalar arithmetic mod r and parser verdicts with the spec",
          "curve arithmetic, subgroup test and hash-to-curve trusted to blst (oracle facts per string from raw blst); predicted differences accepted w.h.p. over two seed sets; hardened derivation / from_seed opaque", "3 C16"),
+ "C10": (True, "model_checking", "explicit TLA+ state machine of both block builders (BlockBuilder.tla: four exits of add_spend_bundles, running estimate, finalize) model-checked by TLC over all interleavings of accepted / rejected adds with declared costs on each guard boundary; every TLC history replayed on the real builders with real signed bundles and seeded random histories trace-validated by TLC (Trace_BlockBuilder, twin-builder comparison for 'rejected attempt leaves later output unchanged')",
+         "TLC checks AllOrNothing (action property), EstimateUpper, WithinLimit, FinalizeEnabled, OutputIsAccepted, SigIsAggregate, CostIsConsensus and LaterOutputUnaffected in every reachable state for both builders (exhaustive to a small depth, simulated beyond); every finalized state is a replay case scaled up to real bundles, and every recorded history (TLC cases + random histories over synthetic bundles and /repo/test-bundles) is validated by TLC: decoded generator = accepted spends, signature = aggregate, cost = run_block_generator2 cost <= max, estimate >= final, finalize never panics",
+         "max_block_cost lowered in the harness so quantities fit TLC integers; compressed sizes are logged observations; two recorded known findings (C10E estimate before first serialisation, C10L clvmr Serializer::restore cache) in known_findings.json", "3 C10"),
+ "C12": (True, "model_checking", "TLA+ definition of the collapsed binary-trie root and of proof semantics (MerkleSet.tla) model-checked by TLC for canonicity, completeness and soundness over all proof terms of bounded sets at real depth 256; TLC-generated sets / forged proofs replayed into both root computations, generate_proof and validate_merkle_proof, random sets trace-validated byte for byte",
+         "TLC checks Canonical (orders, duplicates), Complete and Sound on every set of embedded model keys up to the bound and every proof term of the guided family; each case and seeded random sets (shared prefixes up to 255 bits) run through compute_merkle_set_root, MerkleSet::from_leafs, generate_proof, validate_merkle_proof and deserialize_proof; TLC compares roots with the reference definition byte for byte and the verdict of every (proof, item) pair incl. forged, truncated and extended proofs",
+         "SHA-256 from the JDK (collision resistance assumed for soundness); forged proofs limited to the structured families + random mutation", "3 C12"),
+ "C13": (True, "model_checking", "TLA+ wire grammar of Streamable (Streamable.tla: combinators + hand-written block / proof-of-space codecs) model-checked by TLC for Canon, PrefixFree, RoundTrip, TrustedAgrees and HashIsShaOfEncoding; the grammar is instantiated with the schema extracted from the current sources and TLC re-parses every recorded from_bytes / to_bytes / hash event of ~190 concrete types",
+         "TLC proves the grammar a canonical prefix-free bijection with hash = SHA-256(encoding) over all combinator terms of depth <= 2 and all short byte strings; TLC-enumerated byte strings, arbitrary values, schema-generated boundary values and single-position perturbations run through from_bytes, from_bytes_unchecked, to_bytes, hash and == of every registered type; Trace_Streamable recomputes verdict, re-encoding, digest and trusted/untrusted agreement from the logged bytes",
+         "curve-point validity and CLVM program length are oracle facts from blst / clvmr; PoS v2 quality strings from chia-pos2 vectors; types whose source form the schema extractor cannot model are listed in the evidence (unmodelled)", "3 C13"),
+ "C14": (True, "exploration", "the TLA+ wire grammar (Streamable.tla, model-checked PrefixFree / Canon) used as adversarial input generator: every length / option / enum / version position of every type driven to extreme values, deep CLVM nesting, truncation / extension / bit flips; each decode runs in a child process under a counting allocator and CPU clock, and TLC (Trace_Totality) judges outcome, rejection of truncated / extended input, consumed length, post-operations and the stated resource bounds",
+         "exploration: grammar-directed adversarial inputs for every registered streamable type through from_bytes and from_bytes_unchecked in child processes; TLC validates every event against Trace_Totality (value-or-error, no panic / abort / hang, must-reject classes rejected, allocation <= stated multiple of input, CPU bound, re-encode / hash / == complete)",
+         "resource bounds are stated thresholds with large margins, not derived; one recorded known finding (hash of a v2 ProofOfSpace without quality string panics)", "3 C14"),
+ "C15": (True, "model_checking", "PlusCal-style TLA+ model of the shared pairing cache at lock granularity (BlsCache.tla) model-checked by TLC over all interleavings of concurrent cache-assisted verifications and environment operations (Bounded, CacheCoherent, Transparent), plus symbolic models of the stand-alone verifiers (BlsVerify.tla); every TLC schedule forced on real OS threads through the verif-hooks yield points and all logs trace-validated by TLC",
+         "TLC explores every interleaving for all capacities / prior contents / calls of the menu and checks len <= capacity, cache coherence and verdict transparency; each terminal state (schedule + predicted contents per step + verdicts) is forced on real threads and compared step by step; seeded random histories (more threads, larger calls, evict / update) and sequential inputs over verify, aggregate_verify, BlsCache::aggregate_verify, aggregate_verify_gt and validate_clvm_and_signature are validated by TLC against the reference verdict (never valid with an infinity key)",
+         "symbolic cryptography (distinct bags give distinct pairing products); schedules are forced at the hook points (lock acquisitions), not inside blst; off-subgroup / tampered signatures from raw blst", "3 C15"),
+ "C17": (True, "model_checking", "TLA+ state machine of the memoizing tree hash (TreeHashCache.tla: visit counting, memo, reuse across calls) over explicit DAG node tables, model-checked by TLC against the recursive reference (atoms prefix 1, pairs prefix 2) for every small DAG and cache history; TLC histories replayed through one shared TreeCache and all tree-hash routines, serialisation modes and curry_tree_hash trace-validated byte for byte",
+         "TLC explores every DAG with a bounded number of pair nodes and every reachable state of one shared TreeCache and checks cached = plain = reference; each history and seeded random DAGs (heavy sharing, deep lists, back-reference serialisations) run through tree_hash, tree_hash_cached, tree_hash_from_bytes, TreeCache reuse and curry_tree_hash vs the tree hash of the real curried program; TLC recomputes every hash from the logged node table",
+         "SHA-256 from the JDK; clvmr Allocator / serialisers trusted for logging node tables", "3 C17"),
+ "C18": (True, "model_checking", "explicit TLA+ state machine of the DataLayer Merkle blob (MerkleBlob.tla: insert at every location class, upsert, delete, batch insert, lazy hash recomputation, reload) refining a plain map, model-checked by TLC (RefinesMap, Integrity, FailedIsStutter, ReloadEquivalent, RootHashDef, ProofsValid); TLC histories replayed on the real MerkleBlob and seeded random histories trace-validated with the tree shape logged",
+         "TLC checks the refinement and integrity invariants on every reachable state of bounded histories incl. failing operations; every TLC history and seeded random histories (duplicate keys / hashes, freed and internal reference indexes, batches, reloads) run on the real blob; after every call TLC validates content = map, check_integrity, failed = unchanged (bytes), reload equivalence, root hash = independent recomputation and every key's proof of inclusion",
+         "SHA-256 from the JDK; auto insert locations are logged observations pinned by the resulting shape; three defects found by this check were repaired (known_findings.json)", "3 C18"),
+ "C19": (True, "model_checking", "TLA+ models of the dedup fingerprint preimage framing and eligibility rule (Fingerprint.tla over the Conditions machine in mempool mode) and of the fast-forward guard table and solution rewrite (FastForward.tla), model-checked by TLC (framing injective on accepted lists, eligibility rule, guard table); TLC-generated condition-list pairs and corruption matrices replayed on real singleton spends and trace-validated (Trace_Mempool)",
+         "TLC checks on pair menus that equal fingerprints of two accepted lists imply identical parsed conditions and that DEDUP is flagged only without AGG_SIG / message conditions and with outputs >= input; every pair and every row of the fast-forward corruption matrix (wrong coin, lineage, amounts, non-singleton puzzles) runs through run_spendbundle fingerprints / flags and fast_forward_singleton on real singleton spends; TLC validates refusal / acceptance, that the rewritten solution differs only in the three lineage fields, re-runs against the new coin and equal created coins",
+         "clvmr runs the singleton puzzle (oracle); one recorded known finding C19_TAIL (trailing solution elements dropped by the rewrite)", "3 C19"),
 }
 ORDER = ["C%02d" % i for i in range(1, 21)]
 PENDING_REASON = "check not built yet in this round (construction order DESIGN section 8); no claim is made"
